@@ -35,6 +35,11 @@ type params struct {
 	// Fault in (0,1]: one store call of the operation (at that fraction of its calls, counted by a dry run on a clone)
 	// fails; the operation continues along its error path
 	Fault float64 `json:"fault_at_fraction,omitempty"`
+	// Crash in (0,1] (DeleteRepo only): the client dies at that fraction of the operation's store calls (before or after
+	// the call lands), then a fresh client runs DeleteRepo again; when that second run reports success the repository
+	// must be gone completely, as after an undisturbed delete
+	Crash      float64 `json:"crash_at_fraction,omitempty"`
+	CrashAfter bool    `json:"crash_after_the_call_landed,omitempty"`
 }
 
 var repoNames = []string{"a", "ab", "a-b", "b"}
@@ -68,6 +73,14 @@ func gen09(seed int64, tier string) []drv.Case {
 		op := []string{"rename", "delete", "delete-files", "rename"}[i%4]
 		cs = append(cs, drv.Case{ID: fmt.Sprintf("%s-fault-%d", op, len(cs)), Class: op + "-fault", Params: drv.MustJSON(params{Op: op, DelNil: r.Intn(2) == 0,
 			Target: repoNames[r.Intn(len(repoNames))], Seed: r.Int63(), Fault: (float64(i/4%6) + r.Float64()) / 6.0})})
+	}
+	ncr := 16
+	if tier == "thorough" {
+		ncr = 400
+	}
+	for i := 0; i < ncr; i++ {
+		cs = append(cs, drv.Case{ID: fmt.Sprintf("delete-crash-rerun-%d", len(cs)), Class: "delete-crash-rerun", Params: drv.MustJSON(params{Op: "delete", DelNil: r.Intn(2) == 0,
+			Target: repoNames[r.Intn(len(repoNames))], Seed: r.Int63(), Crash: (float64(i%8) + r.Float64()) / 8.0, CrashAfter: r.Intn(2) == 0})})
 	}
 	for i := 0; i < m; i++ {
 		op := []string{"delete", "rename", "delete-files"}[i%3]
@@ -303,6 +316,41 @@ func run09(c drv.Case, res *drv.Result) {
 					return nil
 				})
 			}
+		}
+		if p.Crash > 0 {
+			dry := env.Clone()
+			da := memstore.NewActor("dry")
+			if err := f(dry.Stores(da)); err != nil {
+				return err
+			}
+			_, n := da.Calls() // mutating calls
+			if n == 0 {
+				return f(st)
+			}
+			k := 1 + int(p.Crash*float64(n))
+			if k > n {
+				k = n
+			}
+			victim := memstore.NewActor("operator-that-dies").CrashAt(k, p.CrashAfter)
+			done := make(chan error, 1)
+			go func() { done <- f(env.Stores(victim)) }()
+			select {
+			case <-victim.Dead():
+				res.Stat("deletes_interrupted_by_a_crash", 1)
+				op, key := victim.CrashPoint()
+				res.Seen("crash_point_kinds", op+" "+strings.SplitN(key, "/", 2)[0])
+			case err := <-done:
+				return err // fewer calls than the crash point
+			}
+			time.Sleep(5 * time.Millisecond)
+			err := f(st) // the re-run, by a fresh client
+			if err != nil {
+				res.Stat("reruns_after_a_crash_refused", 1)
+				faultDesc = "the client died inside the delete and the re-run was refused: " + err.Error() // leftovers are then not judged
+				return nil
+			}
+			res.Stat("reruns_after_a_crash_reporting_success", 1)
+			return nil
 		}
 		return f(st)
 	}
